@@ -82,9 +82,10 @@ MUTATING_ALSO = {"pop", "setdefault"}
 BUILTINS = {
     "fresh": """len int float bool complex isinstance issubclass hasattr type range slice id callable ord chr open eval
         print KeyError ValueError TypeError AssertionError IndexError RuntimeError NotImplementedError Exception wraps
-        divmod round""".split(),
+        round""".split(),
+    "divmod": ["divmod"],                                   # may call ndpoly.__divmod__
     "str": """str repr format""".split(),                 # may call ndpoly.__str__ / __repr__
-    "box": """list tuple set frozenset dict sorted reversed enumerate zip iter map filter""".split(),
+    "box": """list tuple set frozenset dict sorted reversed enumerate zip iter map filter chain""".split(),   # chain: itertools.chain
     "elems": """max min sum next any all""".split(),         # result is one of the elements (or fresh)
     "view": """getattr""".split(),
     "abs": ["abs"],
@@ -105,13 +106,18 @@ ATTR_VIEW = set("""T real imag flat data base mT""".split())
 EXTERN_WRITES = {"cfrom_attributes": 1, "cmultiply": 5}
 
 # --- operators -> numpy ufunc / ndpoly dunder that may take over ------------------------------------
-BINOPS = {"Add": "numpy.add", "Sub": "numpy.subtract", "Mult": "numpy.multiply", "Pow": "numpy.power",
-          "FloorDiv": "numpy.floor_divide", "Div": "ndpoly.__truediv__", "Mod": "ndpoly.__mod__", "MatMult": "numpy.matmul",
-          "BitAnd": None, "BitOr": None, "BitXor": None, "LShift": None, "RShift": None}
-CMPOPS = {"Eq": "ndpoly.__eq__", "NotEq": "ndpoly.__ne__", "Lt": "numpy.less", "LtE": "numpy.less_equal", "Gt": "numpy.greater",
-          "GtE": "numpy.greater_equal", "In": "ndpoly.__eq__", "NotIn": "ndpoly.__eq__", "Is": None, "IsNot": None}
+# (every candidate is looked up in the live registries / the ndpoly class: what is not there is not called)
+BINOPS = {"Add": ["numpy.add"], "Sub": ["numpy.subtract"], "Mult": ["numpy.multiply"], "Pow": ["numpy.power"],
+          "FloorDiv": ["numpy.floor_divide"], "Div": ["ndpoly.__truediv__", "numpy.true_divide"],
+          "Mod": ["ndpoly.__mod__", "numpy.remainder"], "MatMult": ["numpy.matmul"], "BitAnd": ["numpy.bitwise_and"],
+          "BitOr": ["numpy.bitwise_or"], "BitXor": ["numpy.bitwise_xor"], "LShift": ["numpy.left_shift"],
+          "RShift": ["numpy.right_shift"]}
+CMPOPS = {"Eq": ["ndpoly.__eq__", "numpy.equal"], "NotEq": ["ndpoly.__ne__", "numpy.not_equal"], "Lt": ["numpy.less"],
+          "LtE": ["numpy.less_equal"], "Gt": ["numpy.greater"], "GtE": ["numpy.greater_equal"],
+          "In": ["ndpoly.__eq__", "numpy.equal", "numpy.any"], "NotIn": ["ndpoly.__eq__", "numpy.equal", "numpy.any"],
+          "Is": [], "IsNot": []}
+UNOPS = {"USub": ["numpy.negative"], "UAdd": ["numpy.positive"], "Not": [], "Invert": ["numpy.invert"]}
 SEQUENCE_OPS = {"Add", "Mult"}
-UNOPS = {"USub": "numpy.negative", "UAdd": "numpy.positive", "Not": None, "Invert": None}
 
 # --- declared output targets ----------------------------------------------------------------------
 #  * a parameter named `out`;  * copyto's `dst`;  * `self` of ndpoly.__array_finalize__ (numpy's hook that
@@ -425,6 +431,11 @@ class FT:
         node = fi.node
         self.weak = any(isinstance(n, (ast.Lambda,)) or (isinstance(n, ast.FunctionDef) and n is not node)
                         for n in ast.walk(node))
+        # a generator expression is evaluated lazily: it must be consumed where it is created (argument of a call)
+        for n in ast.walk(node):
+            for c in ast.iter_child_nodes(n):
+                if isinstance(c, ast.GeneratorExp) and not (isinstance(n, ast.Call) and c in n.args):
+                    raise TranslatorError(f"{fi.qual}:{c.lineno}: generator expression that is not a call argument")
         self.live_module = sys.modules.get(fi.module) or importlib.import_module(fi.module)
         body_names = assigned_names(node.body)
         self.assigned_in_body = body_names
@@ -564,8 +575,12 @@ class FT:
             self.emit(("if", b, []))
 
     def dispatch(self, key, pos, kws, result):
-        """key: 'numpy.<f>' (registry) or 'ndpoly.<dunder>'."""
+        """key: 'numpy.<f>' (registry) or 'ndpoly.<dunder>', or a list of such."""
         if key is None:
+            return
+        if isinstance(key, (list, tuple)):
+            for k in key:
+                self.dispatch(k, pos, kws, result)
             return
         if key.startswith("ndpoly."):
             fi = self.src.ndpoly_methods.get(key[7:])
@@ -970,8 +985,7 @@ class FT:
             if r is not None:
                 self.emit(I_alias(t, r))
             else:
-                self.stats["unbindable"].append(f"{self.fi.qual}:{e.lineno} {dotted}")
-                self.emit(("raise",))
+                self.err(e, f"cannot bind the arguments of the call of {dotted} to its signature")
             return t
         mod = getattr(obj, "__module__", "") or ""
         if isinstance(obj, type):
@@ -998,6 +1012,8 @@ class FT:
                 self.err(e, f"compiled helper {dotted}: cannot locate written argument")
             self.emit(I_write(pos[k][0]))
             return self.fresh()
+        if mod == "itertools" and name == "chain":
+            return self.call_builtin(e, "chain")          # an iterator over the elements of its arguments
         if ch[0] in MODULE_PURE or mod.split(".")[0] in MODULE_PURE | {"contextlib", "typing", "logging", "re", "os"}:
             return self.fresh()                           # str/None in, immutable objects out
         # numpy: by its public dotted name
@@ -1081,6 +1097,9 @@ class FT:
             self.emit(I_alloc(t))
             for v in whole:
                 self.dispatch("numpy.absolute", [(v, False)], [], t)
+        elif kind == "divmod":
+            self.emit(I_alloc(t))
+            self.dispatch(["ndpoly.__divmod__", "numpy.divmod"], pos, [], t)
         elif kind == "view":
             self.emit(I_mayalias(t, whole))
         elif kind in ("box", "elems"):
